@@ -85,17 +85,137 @@ theorem housekeeping_first_once (p : Prog) (h : DocumentedPins p) :
     ∃ body, loopEvents p = polls p ++ body ∧ (∀ e ∈ body, ∀ n r, e ≠ Ev.poll n r) ∧
       (polls p).filterMap pollName = sortUniq (buttonNames (p.setup ++ p.loop)) ∧
       (sortUniq (buttonNames (p.setup ++ p.loop))).Pairwise (· < ·) ∧
-      (∀ n, n ∈ sortUniq (buttonNames (p.setup ++ p.loop)) ↔ ∃ ps, Item.decl .button n ps ∈ p.setup ++ p.loop) := by
-  refine ⟨(pass2L p).2, rfl, body_noPoll p, ?_, sortUniq_sorted _, ?_⟩
+      (∀ n, n ∈ sortUniq (buttonNames (p.setup ++ p.loop)) ↔
+        ∃ k ps, (k = .button ∨ k = .buttonIn) ∧ Item.decl k n ps ∈ p.setup ++ p.loop) := by
+  refine ⟨ticks p ++ (pass2L p).2, rfl, ?_, ?_, sortUniq_sorted _, ?_⟩
+  · intro e he n r hh
+    rcases List.mem_append.1 he with he | he
+    · obtain ⟨m, hm⟩ := mem_ticks p e he
+      rw [hm] at hh
+      cases hh
+    · exact body_noPoll p e he n r hh
   · apply polls_names
     intro n hn
-    obtain ⟨ps, hps⟩ := mem_buttonNames _ n (mem_sortUniq n _ hn)
-    exact hasButton_pass1 p n ps hps ((doc_of_bool p h).wfAll _ n ps hps)
+    obtain ⟨bk, ps, hbk, hps⟩ := mem_buttonNames _ n (mem_sortUniq n _ hn)
+    obtain ⟨pin, hpin⟩ := hasButton_pass1 p bk n ps hbk hps ((doc_of_bool p h).wfAll _ n ps hps)
+    rcases hbk with rfl | rfl
+    · exact ⟨pin, Or.inl hpin⟩
+    · exact ⟨pin, Or.inr hpin⟩
   · intro n
     constructor
     · exact fun hn => mem_buttonNames _ n (mem_sortUniq n _ hn)
-    · rintro ⟨ps, hps⟩
-      exact sortUniq_mem n _ (List.mem_filterMap.2 ⟨_, hps, rfl⟩)
+    · rintro ⟨k, ps, hk | hk, hps⟩ <;> subst hk <;> exact sortUniq_mem n _ (List.mem_filterMap.2 ⟨_, hps, rfl⟩)
+
+/-! ### W10: housekeeping = button polls, then animation ticks; Button modes -/
+
+/-- the events the transpiler injects at the head of loop() -/
+def isHousekeeping : Ev → Bool
+  | .poll _ _ | .tick _ => true
+  | _ => false
+
+/-- (iv'), C05 + C18: every pass of `run p N` is `polls p ++ ticks p ++ user`, in this order (the code prepends the LCDTicks to
+    loop_body and then the ButtonPolls in front of them), where
+    * `polls p` is exactly one poll per declared Button name (either mode), in strictly increasing name order;
+    * `ticks p` is, for the LCD names with an `animate` anywhere in strictly increasing order, one tick per animation that
+      setup() STARTED on that display (`startedInSetup` counts the start calls pass 2 wrote into setup(), and each of them
+      stems from an `animate` item of the prologue);
+    * no other event of the pass is a poll or a tick: housekeeping runs once per pass, before every user event. -/
+theorem housekeeping_once_per_pass (p : Prog) (N : Nat) (h : DocumentedPins p) :
+    ∃ user, run p N = setupEvents p ++ Reduino.Lang.Assemble.repeatList (polls p ++ (ticks p ++ user)) N ∧
+      (∀ e ∈ user, isHousekeeping e = false) ∧
+      (∀ e ∈ polls p, ∃ n r, e = Ev.poll n r) ∧
+      (polls p).filterMap pollName = sortUniq (buttonNames (p.setup ++ p.loop)) ∧
+      (sortUniq (buttonNames (p.setup ++ p.loop))).Pairwise (· < ·) ∧
+      (∀ n, n ∈ sortUniq (buttonNames (p.setup ++ p.loop)) ↔
+        ∃ k ps, (k = .button ∨ k = .buttonIn) ∧ Item.decl k n ps ∈ p.setup ++ p.loop) ∧
+      ticks p = (sortUniq (animNames (p.setup ++ p.loop))).flatMap
+        (fun n => List.replicate (startedInSetup p n) (Ev.tick n)) ∧
+      (sortUniq (animNames (p.setup ++ p.loop))).Pairwise (· < ·) ∧
+      (∀ n, startedInSetup p n = (pass2S p).2.count (Ev.animStart n)) ∧
+      (∀ n, 0 < startedInSetup p n → Item.animate n ∈ p.setup) := by
+  obtain ⟨_, _, _, h3, h4, h5⟩ := housekeeping_first_once p h
+  refine ⟨(pass2L p).2, rfl, ?_, ?_, h3, h4, h5, rfl, sortUniq_sorted _, fun _ => rfl, started_prov p⟩
+  · intro e he
+    have h1 := body_noPoll p e he
+    have h2 := body_noTick p e he
+    cases e <;> simp_all [isHousekeeping]
+  · intro e he
+    obtain ⟨n, pin, hh, _⟩ := mem_polls p e he
+    exact ⟨n, pin, hh⟩
+
+/-- C18: the housekeeping prefix contains no delay — its alphabet is polls and ticks only (`stmt` is the event of a user
+    statement, in the tie a `sleep(tag)` = `delay(tag)`) -/
+theorem no_delay_in_housekeeping (p : Prog) :
+    (∀ e ∈ polls p ++ ticks p, isHousekeeping e = true) ∧ (∀ e ∈ polls p ++ ticks p, ∀ t, e ≠ Ev.stmt t) := by
+  have key : ∀ e ∈ polls p ++ ticks p, isHousekeeping e = true := by
+    intro e he
+    rcases List.mem_append.1 he with he | he
+    · obtain ⟨n, pin, rfl, _⟩ := mem_polls p e he
+      rfl
+    · obtain ⟨n, rfl⟩ := mem_ticks p e he
+      rfl
+  refine ⟨key, fun e he t hh => ?_⟩
+  have := key e he
+  rw [hh] at this
+  cases this
+
+/-- K18a in general: a display is ticked in loop() only if an animation was started on it BEFORE the loop -/
+theorem tick_only_if_started_before_loop (p : Prog) (n : String) (h : Ev.tick n ∈ loopEvents p) : Item.animate n ∈ p.setup := by
+  unfold loopEvents at h
+  rcases List.mem_append.1 h with h | h
+  · obtain ⟨_, _, hh, _⟩ := mem_polls p _ h
+    cases hh
+  · rcases List.mem_append.1 h with h | h
+    · obtain ⟨m, hm, _, hpos⟩ := mem_ticks' p _ h
+      cases hm
+      exact started_prov p n hpos
+    · exact absurd rfl (body_noTick p _ h n)
+
+/-- K18a as a witness: `d = LCD(…)` / `while True: d.animate(…); sleep(1)` — the animation is (re)started every pass and never
+    ticked, although the property says it "is advanced once per loop() pass" -/
+theorem loop_started_animation_not_ticked_counterexample :
+    let p : Prog := { setup := [.decl .lcd "d" []], loop := [.animate "d", .stmt 1] }
+    DocumentedPins p ∧ run p 2 = [.lcdInit "d", .animStart "d", .stmt 1, .animStart "d", .stmt 1] ∧
+      (∀ n, Ev.tick n ∉ run p 2) ∧
+      -- the control: the same animation started before the loop is ticked every pass
+      run { setup := [.decl .lcd "d" [], .animate "d"], loop := [.stmt 1] } 2 =
+        [.lcdInit "d", .animStart "d", .tick "d", .stmt 1, .tick "d", .stmt 1] := by
+  intro p
+  have hrun : run p 2 = [.lcdInit "d", .animStart "d", .stmt 1, .animStart "d", .stmt 1] := by decide
+  refine ⟨by decide, hrun, fun n hn => ?_, by decide⟩
+  rw [hrun] at hn
+  simp at hn
+
+/-- Button mode: a Button declared before the loop gets `pinMode(pin, <declared mode>)` in setup() — INPUT_PULLUP for the
+    default, INPUT for `mode="INPUT"` — and (`no_mode_conflict`) no pin gets a second, different mode unless two declarations
+    disagree.  The initial sample (`read`) is the same in both modes. -/
+theorem button_mode_as_declared (p : Prog) (h : DocumentedPins p) (n : String) (r : Nat) :
+    (Item.decl .button n [r] ∈ p.setup → Ev.pinMode r .pullup ∈ setupEvents p) ∧
+    (Item.decl .buttonIn n [r] ∈ p.setup → Ev.pinMode r .input ∈ setupEvents p) := by
+  constructor
+  · intro hm
+    exact List.mem_append_left _ (List.mem_append_left _
+      (button_setup_cfgd p (doc_of_bool p h) .button (Or.inl rfl) n [r] hm _ (by simp [need])))
+  · intro hm
+    exact List.mem_append_left _ (List.mem_append_left _
+      (button_setup_cfgd p (doc_of_bool p h) .buttonIn (Or.inr rfl) n [r] hm _ (by simp [need])))
+
+/-- non-vacuity: two LCDs (only `l2` animated before the loop, `l1` animated inside it), two Buttons (one per mode) -/
+def demoHk : Prog :=
+  { setup := [.decl .lcd "l2" [], .decl .lcd "l1" [2, 3, 4, 5, 6, 7], .decl .button "b" [8], .decl .buttonIn "a" [9],
+              .animate "l2", .use "l1"],
+    loop := [.animate "l1", .stmt 2] }
+
+example : DocumentedPins demoHk := by decide
+example : modesAgreeB demoHk = true := by decide
+example : run demoHk 2 =
+    [.lcdInit "l2", .lcdInit "l1", .pinMode 8 .pullup, .read 8, .pinMode 9 .input, .read 9, .animStart "l2", .lcdWrite "l1",
+     .poll "a" 9, .poll "b" 8, .tick "l2", .animStart "l1", .stmt 2,
+     .poll "a" 9, .poll "b" 8, .tick "l2", .animStart "l1", .stmt 2] := by decide
+example : polls demoHk = [.poll "a" 9, .poll "b" 8] ∧ ticks demoHk = [.tick "l2"] := by decide
+example : Ev.pinMode 9 .input ∈ setupEvents demoHk := (button_mode_as_declared demoHk (by decide) "a" 9).2 (by decide)
+example : ∀ m m', Ev.pinMode 9 m ∈ run demoHk 2 → Ev.pinMode 9 m' ∈ run demoHk 2 → m = m' :=
+  fun m m' => no_mode_conflict demoHk 2 (by decide) 9 m m'
 
 /-! ### non-vacuity: a serial monitor, a Led re-bound at the top of the loop body, a Button, an Ultrasonic, a loop-declared Servo -/
 
